@@ -66,33 +66,44 @@ CLAIMS = {
         note=COMMON_NOTE + "The mtime half of the skip rule is runtime behaviour and not modelled (size-equal files are equal when only "
              "appends happened)."),
     'C05': dict(
-        text="PARTIAL PROOF. Proved in Lean on the byte-level model, for every log content, every batch, every byte count of the batch that reached the "
-             "file and every state of the index file: a cut record never parses (both formats); Recover keeps the records before the batch and "
-             "exactly the whole records of the batch that reached the file, the result passes Check, can be appended to and still passes "
-             "Check, and recovering again changes nothing. Regenerated structural facts (record before index item before in-memory append; "
-             "fsync before rename; old head fsynced before the new segment) are proof obligations. The directory-level statement for the "
-             "rollover / delete-by-rewrite / migrate / recover families is decided by the crash-image correspondence: the FS tap snapshots "
-             "the directory after every file-system mutation of every operation of generated workloads, plus torn appends (every byte in "
-             "thorough) and crashes inside the recovery of sampled images (depth 2); every image is reopened by the real Open(Recover) and "
-             "judged against the L0 relation CrashOK (content = before or after the in-flight op; acknowledged messages kept; NextOffset "
-             "never below an acknowledged one; all views agree; recover-again is a no-op; append + Check passes).",
-        note=COMMON_NOTE + "Partial: the multi-file families are not proved (the model has no crash points between files); they are explored, not "
-             "proved. Crash images are taken at write/rename/remove boundaries with whole-file granularity plus torn appends; sector-level "
-             "reordering inside one write is not modelled. Open known findings (known_findings.json): D6 (rebasing delete), KF-V1-TORN.",
-        technique="Lean 4 theorems over a hand-written byte-level model (recovery of the head for every cut) + regenerated go/ast facts as proof "
-                  "obligations + crash-image correspondence against the real Open(Recover)"),
+        text="PARTIAL PROOF (what is missing: the Open-time programs of Recover/Migrate themselves and the rebasing delete, a proved "
+             "counterexample). Proved in Lean, record level (Klev/Crash.lean, Proofs/CrashProofs.lean): Publish (with rollover) and Delete (every "
+             "way a rewritten segment is swapped in, in reader and head segments) are programs of file-system steps; for every state with the "
+             "invariant, every operation, every prefix of its program (= crash point) and any open options with Recover, Open succeeds, the log "
+             "satisfies the invariant (so all views agree and every later call behaves, by C01-C12) and its content is the acknowledged messages "
+             "plus a prefix of the batch in flight / the delete applied completely or not at all, NextOffset never backwards (crash_recovers); "
+             "the programs end exactly in the model's result (prog_final). Without 'non-rebasing' the theorem is false: "
+             "rebase_crash_counterexample (= known finding D6, replayed on the real code). Byte level: a cut record never parses (both formats); "
+             "for every log content, batch, byte count that reached the file and index state, Recover keeps exactly the whole records, the "
+             "result passes Check, can be appended to, and recovering again changes nothing (torn_batch_recovers/check). Regenerated order facts "
+             "(record before item before in-memory append; fsync before rename; old head fsynced before the new segment) are obligations. "
+             "Tie of the programs to the code: the FS tap snapshots the directory after every file-system mutation of every operation; the "
+             "driver requires every image's listing to be one of the model's crash states of that operation, and judges the real "
+             "Open(Recover) of every image (plus torn appends at every byte in thorough, crashes inside recovery, retry of an interrupted Open) "
+             "against the L0 relation CrashOK.",
+        note=COMMON_NOTE + "Crash images are taken at write/rename/remove boundaries plus torn appends; sector-level reordering inside one write "
+             "is not modelled. Open known findings (known_findings.json): D6 (rebasing delete), KF-V1-TORN.",
+        technique="Lean 4 theorems over a hand-written model (FS programs of Publish/Delete at record level with every crash point; byte-level "
+                  "recovery of the head for every cut) + regenerated go/ast facts as proof obligations + crash-image correspondence against the "
+                  "real Open(Recover), incl. membership of every observed directory in the model's crash states"),
     'C06': dict(
-        text="PARTIAL PROOF. Proved in Lean: with a synced prefix of records in the head log and any number of bytes of a later batch surviving, with any "
-             "index content, recovery keeps every synced record and a prefix of the batch. Regenerated facts: Sync fsyncs log then index; the "
-             "old head is fsynced before a new segment is created; rewritten/recovered/migrated files are fsynced before rename. The "
-             "directory-level statement is decided by the loss-image correspondence: the tap tracks the fsynced length of every file "
-             "(renames carry it), after every operation loss images cut files back to lengths between fsynced and current; each is reopened "
-             "with the real Open(Recover) and judged: every live message below the last offset acknowledged by Sync/Close/AutoSync-Publish "
-             "is present and intact, NextOffset is not below it.",
-        note=COMMON_NOTE + "Partial: fault model = tail loss of unsynced appends per file with atomic renames and atomic 8-byte headers (as the "
+        text="PARTIAL PROOF (what is missing: that fsync makes exactly the fsynced prefix durable is the fault model, checked on the code by the "
+             "loss profile, not derived). Proved in Lean, record level (Klev/Loss.lean, Proofs/LossProofs.lean): for every state with the "
+             "invariant, whatever number j of whole records of the head log survives and whatever is left of the head index file, Open with "
+             "Recover succeeds, the log satisfies the invariant, holds exactly the messages that were not lost and continues after the last "
+             "survivor (loss_recovers); if Sync acknowledged when the head held n <= j records, every live message below the acknowledged "
+             "offset survives and NextOffset is not below it (synced_survive). Byte level: with a synced prefix of records and any number of "
+             "bytes of a later batch surviving, with any index content, recovery keeps every synced record and a prefix of the batch. "
+             "Regenerated facts as obligations: Sync fsyncs log then index; the old head is fsynced before a new segment is created; "
+             "rewritten/recovered/migrated files are fsynced before rename - which is why only the head's files can lose a tail. "
+             "Correspondence: the FS tap tracks the fsynced length of every file (renames carry it); after every operation loss images cut "
+             "files back to lengths between fsynced and current (each is also lost a second time right after its recovery); the driver checks "
+             "that only the head's files had an unsynced tail (the assumption of the model) and judges the real Open(Recover) of every image: "
+             "every live message below the last offset acknowledged by Sync/Close/AutoSync-Publish present and intact, NextOffset not below it.",
+        note=COMMON_NOTE + "Fault model = tail loss of unsynced appends per file with atomic renames and atomic 8-byte headers (as the "
              "property states it); directory-entry durability is observed through the dirsync tap, not modelled.",
-        technique="Lean 4 theorems over a hand-written byte-level model + regenerated go/ast facts as proof obligations + loss-image "
-                  "correspondence against the real Open(Recover)"),
+        technique="Lean 4 theorems over a hand-written model (record-level loss states of the head; byte-level recovery for every cut) + "
+                  "regenerated go/ast facts as proof obligations + loss-image correspondence against the real Open(Recover)"),
     'C18': dict(
         text="Proved in Lean over an interleaving semantics of notify.Offset whose three instruction lists are regenerated from the current "
              "pkg/notify/notify.go by a go/ast translator (obligation notify_prog_eq, by decide), for every schedule of any number of Wait / Set "
